@@ -27,6 +27,7 @@ proof.  A proved equivalence lets the loader analyse the function in its referen
 from __future__ import annotations
 
 import ast
+import time
 import copy
 
 from .loader import is_logging_call
@@ -1960,6 +1961,8 @@ def summarise(ctx: Ctx, qual: str, fn) -> list:
         paths.append((dict(run.facts), tuple(run.trace), out))
         if len(paths) > MAX_PATHS:
             raise Unknown('path budget')
+        if len(paths) % 256 == 0 and _DEADLINE[0] is not None and time.time() > _DEADLINE[0]:
+            raise Unknown('time budget')
     return paths
 
 
@@ -2180,9 +2183,14 @@ def equivalent_cached(qual, cur_fn, ref_fn, cur_ctx, ref_ctx, fns):
     return ok, info
 
 
+_DEADLINE = [None]
+E13_SECONDS = 90.0      # wall-clock budget per compared function (all unrolling levels together)
+
+
 def equivalent(qual, cur_fn, ref_fn, cur_ctx: Ctx, ref_ctx: Ctx):
     """(True, info) / (False, why)"""
     err = None
+    _DEADLINE[0] = time.time() + E13_SECONDS
     for level in UNROLL_LEVELS:
         cur_ctx.unroll = ref_ctx.unroll = level
         try:
